@@ -412,6 +412,10 @@ func (p *periodCase) startPeriod(k *perKey) {
 		p.logf("  (aligned period: TTL %v)", ttl)
 	} else if ttl == time.Duration(p.period)*time.Second {
 		p.c.Obs("period_ttl_equals_period", 1)
+	} else {
+		// recorded, not judged here: the end of the period is decided behaviourally
+		// (one millisecond before, at and after the expiry the model expects)
+		p.c.Obs("period_ttl_differs_from_period", 1)
 	}
 }
 
